@@ -89,6 +89,42 @@ def correspondences(tier, rng):
         v, f = x
         return ScalerVisitor(f).scale(v)
     out.append(Corr("scale", cases, impl_scale))
+    # reorderGlyphs: ReorderCoverage.apply on one Coverage and the list parallel to it, under a new glyph order
+    from fontTools.ttLib.reorderGlyphs import ReorderCoverage
+    from fontTools.ttLib.tables import otTables as ot
+    cases = []
+    for _ in range(n):
+        k = rng.randint(0, 8)
+        names = list(range(k + rng.randint(0, 3))); rng.shuffle(names)             # the new glyph order (glyph i is called "g<i>")
+        glyphs = rng.sample(names, min(k, len(names)))
+        if glyphs and rng.chance(8): glyphs.append(rng.choice(glyphs))            # a coverage that lists a glyph twice
+        r_ = rng.below(10)
+        if r_ < 3: par = None
+        else:
+            par = [rng.randint(0, 999) for _ in glyphs]
+            if r_ == 3 and par: par = par[:-1]                                       # "Nothing makes sense"
+        cases.append((names, glyphs, par))
+    def impl_reorder(x):
+        names, glyphs, par = x
+        f = TTFont(); f.setGlyphOrder(["g%d" % i for i in names])
+        class V: pass
+        v = V(); v.Coverage = ot.Coverage(); v.Coverage.glyphs = ["g%d" % i for i in glyphs]
+        if par is not None: v.Par = list(par)
+        def go():
+            ReorderCoverage(parallel_list_attr="Par" if par is not None else None).apply(f, v)
+            return ([int(g[1:]) for g in v.Coverage.glyphs], Opt(list(v.Par), some=True) if par is not None else Opt(None))
+        return res(go)
+    def oracle_reorder(x):
+        """the PROPERTY on the implementation: every glyph keeps its entry, the coverage comes out in glyph-id order"""
+        names, glyphs, par = x
+        if par is None or len(par) != len(glyphs) or len(set(glyphs)) != len(glyphs): return None
+        r = impl_reorder(x)
+        if isinstance(r, Err): return "ReorderCoverage.apply raised on a well-formed coverage"
+        g2, p2 = r.v
+        if dict(zip(g2, p2.v)) != dict(zip(glyphs, par)): return "glyph -> entry association changed: %r -> %r" % (list(zip(glyphs, par)), list(zip(g2, p2.v)))
+        if [names.index(g) for g in g2] != sorted(names.index(g) for g in g2): return "coverage is not in glyph-id order"
+        return None
+    out.append(Corr("reorder_coverage", cases, impl_reorder, enc=lambda x: (x[0], x[1], Opt(x[2], some=x[2] is not None)), oracle=oracle_reorder))
     return out
 
 # ------------------------------------------------------------------ sweeps
@@ -275,12 +311,16 @@ def sweeps(tier, rng):
                         ax = f0["fvar"].axes
                         locs += [{a.axisTag: a.maxValue for a in ax}, {a.axisTag: (a.defaultValue + a.maxValue) / 2 for a in ax}]
                     f1 = TTFont(io.BytesIO(data0)); scale_upem(f1, new_upem); data1 = save_bytes(f1)
+                    # every tuple's delta is rounded on its own after scaling: away from the default each active tuple may add half a unit
+                    # (VARC components instantiate their glyphs away from the default even at the font's default location, two levels deep)
+                    maxtup = max([len(v) for v in f0["gvar"].variations.values()] or [0]) if "gvar" in f0 else 0
+                    varc = "VARC" in f0
                     bad = None
                     for loc in locs:
                         h0 = HBFont(data0, order, variations=loc); h1 = HBFont(data1, order, variations=loc)
                         for gid, nme in enumerate(order):
                             a0, a1 = h0.advance(gid), h1.advance(gid)
-                            if abs(a1 - float(a0 * fac)) > 1.01 + (0.51 * 3 if loc else 0):
+                            if abs(a1 - float(a0 * fac)) > 1.01 + (0.51 * (3 + maxtup) if (loc or varc) else 0):
                                 bad = "advance of %r at %r is %r after scaling by %s (was %r)" % (nme, loc, a1, fac, a0); break
                             o0, o1 = h0.outline(gid), h1.outline(gid)
                             if len(o0) != len(o1) or any(x[0] != y[0] or len(x[1]) != len(y[1]) for x, y in zip(o0, o1)):
@@ -295,7 +335,7 @@ def sweeps(tier, rng):
                                     bad = "extent of %r: %r scaled by %s became %r" % (nme, e0, fac, e1); break
                                 continue
                             # CFF stores relative coordinates: each rounded delta may add half a unit (scale_sum_budget)
-                            tol = 1.01 + (0.51 * 4 if loc else 0) + (0.5 * sum(len(a) for _, a in o0) if "CFF " in f0 or "CFF2" in f0 else 0)
+                            tol = 1.01 + (0.51 * (4 + maxtup) if loc else 0) + (0.51 * 2 * (3 + maxtup) if varc else 0) + (0.5 * sum(len(a) for _, a in o0) if "CFF " in f0 or "CFF2" in f0 else 0)
                             for x, y in zip(o0, o1):
                                 for p, q in zip(x[1], y[1]):
                                     if abs(q[0] - p[0] * float(fac)) > tol or abs(q[1] - p[1] * float(fac)) > tol:
